@@ -31,6 +31,7 @@ import (
 	"net/http/httptest"
 	"os"
 	"strings"
+	"sync"
 	"sync/atomic"
 
 	"github.com/modelcontextprotocol/go-sdk/jsonrpc"
@@ -55,12 +56,16 @@ func (o gcOp) text() string {
 		return "copen " + o.tr
 	case "chs":
 		return fmt.Sprintf("chs %d", o.k)
+	case "choldq":
+		return fmt.Sprintf("choldq %d", o.k)
+	case "crelease":
+		return fmt.Sprintf("crelease %d", o.k)
 	}
 	id := "noid"
 	if o.hasID {
 		id = "id"
 	}
-	return fmt.Sprintf("ccall %d %s %s %s", o.k, hxs(o.name), id, o.shape)
+	return fmt.Sprintf("%s %d %s %s %s", o.kind, o.k, hxs(o.name), id, o.shape)
 }
 
 func gcParse(ln string) (gcOp, bool) {
@@ -73,6 +78,14 @@ func gcParse(ln string) (gcOp, bool) {
 		return gcOp{kind: "creg", name: gateUnhex(f[1])}, true
 	case f[0] == "copen" && len(f) == 2:
 		return gcOp{kind: "copen", tr: f[1]}, true
+	case (f[0] == "choldq" || f[0] == "crelease") && len(f) == 2:
+		k := 0
+		fmt.Sscanf(f[1], "%d", &k)
+		return gcOp{kind: f[0], k: k}, true
+	case f[0] == "ccallq" && len(f) == 5:
+		k := 0
+		fmt.Sscanf(f[1], "%d", &k)
+		return gcOp{kind: "ccallq", k: k, name: gateUnhex(f[2]), hasID: f[3] == "id", shape: f[4]}, true
 	case f[0] == "chs" && len(f) == 2:
 		k := 0
 		fmt.Sscanf(f[1], "%d", &k)
@@ -108,6 +121,10 @@ type gcSess struct {
 	ss   *ServerSession
 	sid  string // http
 	cs   *ClientSession // cli
+	// a notification handler of the session is parked on gate: the session's queue is stopped; queued: the
+	// calls written meanwhile (id as it will come back, "" for none)
+	gate   chan struct{}
+	queued []string
 }
 
 var gcShapes = []string{"absent", "null", "ok", "undecodable", "wrongtype"}
@@ -210,8 +227,17 @@ func gcRunCase(t *testing.T, c gcCase, emit func(i int, obs string)) {
 		ctx, cancel := context.WithCancel(context.Background())
 		defer cancel()
 		var ran atomic.Int64
+		var gates sync.Map // *ServerSession -> chan struct{}: the session's progress handler parks on it
+		var parked atomic.Int64
 		server := NewServer(&Implementation{Name: "verif-server", Version: "1"}, &ServerOptions{
 			Logger: slog.New(slog.NewTextHandler(io.Discard, nil)),
+			ProgressNotificationHandler: func(_ context.Context, req *ProgressNotificationServerRequest) {
+				if g, ok := gates.Load(req.Session); ok {
+					parked.Add(1)
+					<-g.(chan struct{})
+					parked.Add(-1)
+				}
+			},
 		})
 		handler := NewStreamableHTTPHandler(func(*http.Request) *Server { return server }, nil)
 		stateless := NewStreamableHTTPHandler(func(*http.Request) *Server { return server }, &StreamableHTTPOptions{Stateless: true})
@@ -294,7 +320,88 @@ func gcRunCase(t *testing.T, c gcCase, emit func(i int, obs string)) {
 						emit(i, "ok")
 					}
 				}
+			case "choldq":
+				// a notification whose handler parks: the session's queue stops (label 0 of the race)
+				if op.k >= len(sess) || sess[op.k].tr != "mem" || sess[op.k].gate != nil {
+					emit(i, "na")
+					continue
+				}
+				s := sess[op.k]
+				g := make(chan struct{})
+				gates.Store(s.ss, g)
+				before := parked.Load()
+				go s.peer.write(`{"jsonrpc":"2.0","method":"notifications/progress","params":{"progressToken":"t","progress":1}}`)
+				synctest.Wait()
+				s.peer.takeResps()
+				if parked.Load() > before {
+					s.gate = g
+					emit(i, "ok")
+				} else {
+					gates.Delete(s.ss) // refused by the gate (no initialize yet): nothing is parked
+					emit(i, "na")
+				}
+			case "ccallq":
+				// label 1: the call is written while the queue is stopped
+				if op.k >= len(sess) || sess[op.k].gate == nil {
+					emit(i, "na")
+					continue
+				}
+				s := sess[op.k]
+				nextID++
+				idTok, want := "", ""
+				if op.hasID {
+					idTok, want = fmt.Sprintf(`"id":%d,`, nextID), fmt.Sprint(nextID)
+				}
+				mname, _ := json.Marshal(op.name)
+				go s.peer.write(fmt.Sprintf(`{"jsonrpc":"2.0",%s"method":%s%s}`, idTok, mname, gcParams(op.shape)))
+				synctest.Wait()
+				if early := s.peer.takeResps(); len(early) > 0 {
+					emit(i, "early:"+gateWire1(early, want, op.hasID))
+				} else {
+					emit(i, "queued")
+				}
+				s.queued = append(s.queued, want)
+			case "crelease":
+				// label 2: the parked handler returns, the queue runs
+				if op.k >= len(sess) || sess[op.k].gate == nil {
+					emit(i, "na")
+					continue
+				}
+				s := sess[op.k]
+				before := ran.Load()
+				gates.Delete(s.ss)
+				close(s.gate)
+				s.gate = nil
+				synctest.Wait()
+				resps := s.peer.takeResps()
+				var ws []string
+				used := 0
+				for _, want := range s.queued {
+					var mine []map[string]json.RawMessage
+					if want != "" {
+						for _, r := range resps {
+							if string(r["id"]) == want {
+								mine = append(mine, r)
+							}
+						}
+					}
+					used += len(mine)
+					ws = append(ws, gateWire1(mine, want, want != ""))
+				}
+				if used < len(resps) {
+					ws = append(ws, fmt.Sprintf("stray%d", len(resps)-used))
+				}
+				s.queued = nil
+				r := "-"
+				if len(ws) > 0 {
+					r = strings.Join(ws, ";")
+				}
+				emit(i, fmt.Sprintf("r=%s h=%d", r, ran.Load()-before))
 			case "chs":
+				if op.k < len(sess) && sess[op.k].gate != nil {
+					emit(i, "na") // would only be queued
+					continue
+				}
 				if op.k >= len(sess) || sess[op.k].tr != "mem" {
 					emit(i, "na")
 					continue
@@ -317,6 +424,10 @@ func gcRunCase(t *testing.T, c gcCase, emit func(i int, obs string)) {
 					continue
 				}
 				s := sess[op.k]
+				if s.gate != nil {
+					emit(i, "na") // would only be queued
+					continue
+				}
 				nextID++
 				idTok, want := "", ""
 				if op.hasID {
@@ -380,6 +491,14 @@ func gcRunCase(t *testing.T, c gcCase, emit func(i int, obs string)) {
 		}
 		// tear down: everything in the bubble must exit
 		for _, s := range sess {
+			if s.gate != nil {
+				gates.Delete(s.ss)
+				close(s.gate)
+				s.gate = nil
+			}
+		}
+		synctest.Wait()
+		for _, s := range sess {
 			if s.tr == "mem" {
 				go s.ss.Close()
 			}
@@ -430,8 +549,19 @@ func gcRandom(id string, rng *rand.Rand) gcCase {
 			c.ops = append(c.ops, gcOp{kind: "copen", tr: tr})
 			trs = append(trs, tr)
 			nsess++
-		case r < 46:
+		case r < 44:
 			c.ops = append(c.ops, gcOp{kind: "chs", k: rng.Intn(nsess)})
+		case r < 50:
+			c.ops = append(c.ops, gcOp{kind: "choldq", k: rng.Intn(nsess)})
+		case r < 60:
+			name := gcNames[rng.Intn(3)]
+			shape := "ok"
+			if rng.Intn(3) == 0 {
+				shape = gcShapes[rng.Intn(len(gcShapes))]
+			}
+			c.ops = append(c.ops, gcOp{kind: "ccallq", k: rng.Intn(nsess), name: name, hasID: rng.Intn(5) != 0, shape: shape})
+		case r < 66:
+			c.ops = append(c.ops, gcOp{kind: "crelease", k: rng.Intn(nsess)})
 		default:
 			name := gcNames[rng.Intn(len(gcNames))]
 			if rng.Intn(10) == 0 {
@@ -491,6 +621,33 @@ func gcOrders() []gcCase {
 	return out
 }
 
+// gcRaces: a call queued on a held pipe session, with the registration of its method before the call is written,
+// while it is queued, or after the queue ran; per id and params shape; two queued calls.
+func gcRaces() []gcCase {
+	var out []gcCase
+	pre := []gcOp{{kind: "copen", tr: "mem"}, {kind: "chs", k: 0}}
+	reg := gcOp{kind: "creg", name: "acme/a"}
+	for _, hasID := range []bool{true, false} {
+		for _, shape := range gcShapes {
+			call := gcOp{kind: "ccallq", k: 0, name: "acme/a", hasID: hasID, shape: shape}
+			hold, rel := gcOp{kind: "choldq", k: 0}, gcOp{kind: "crelease", k: 0}
+			probe := gcOp{kind: "ccall", k: 0, name: "acme/a", hasID: true, shape: "ok"}
+			for _, body := range [][]gcOp{
+				{reg, hold, call, rel, probe},
+				{hold, reg, call, rel, probe},
+				{hold, call, reg, rel, probe},
+				{hold, call, rel, reg, probe},
+				{hold, call, call, reg, call, rel, probe},
+			} {
+				c := gcCase{id: fmt.Sprintf("q%d", len(out)), tag: "race"}
+				c.ops = append(append(c.ops, pre...), body...)
+				out = append(out, c)
+			}
+		}
+	}
+	return out
+}
+
 func gcReplay(path string) []gcCase {
 	b, err := os.ReadFile(path)
 	if err != nil {
@@ -526,6 +683,7 @@ func TestVerifGateCustom(t *testing.T) {
 	} else {
 		if os.Getenv("VERIF_CASES") == "" {
 			cases = append(cases, gcOrders()...)
+			cases = append(cases, gcRaces()...)
 		}
 		n := verifN(400, 4000)
 		for i := 0; i < n; i++ {
